@@ -205,7 +205,11 @@ class ImageFormation(HoloPyObject):
         return point_or_flat
 
     def _transform_to_desired_coordinates(self, detector, origin, wavevec=1):
-        if hasattr(detector, 'theta') and hasattr(detector, 'phi'):
+        # points given by angles -- unless the detector has pixel positions:
+        # a calc_scat_matrix result carries the r, theta, phi it was computed
+        # at (relative to that scatterer) next to its x, y, z
+        if (hasattr(detector, 'theta') and hasattr(detector, 'phi')
+                and not (hasattr(detector, 'x') and hasattr(detector, 'y'))):
             original_coordinate_system = 'spherical'
             original_coordinate_values = [
                 (detector.r.values * wavevec if hasattr(detector, 'r')
